@@ -340,7 +340,7 @@ E("do_action", "do_action", "op", [ANY], none,
 E("finally_action", "finally_action", "op", [ANY], none, lambda env, P: ops.finally_action(lambda: None), stage=True)
 E("as_observable", "as_observable", "op", [ANY], none, lambda env, P: ops.as_observable(), stage=True)
 E("slice", "slice", "op", [S(lo=2)],
-  lambda r: {"a": r.choice([None, 0, 1, 2, -1, -2]), "b": r.choice([None, 1, 3, -1]), "c": r.choice([None, 1, 2])},
+  lambda r: {"a": r.choice([None, 0, 1, 2, -1, -2, -2, -3]), "b": r.choice([None, 1, 2, 3, 3, -1]), "c": r.choice([None, 1, 2])},
   lambda env, P: ops.slice(P["a"], P["b"], P["c"]), stage=True)
 E("sequence_equal_iterable", "sequence_equal", "op", [S("CE", hi=3, domain="dups")],
   lambda r: {"shape": r.choice(["list", "tuple"]), "xs": [r.choice([0, 1, 2, 3]) for _ in range(r.randint(0, 3))]},
@@ -627,7 +627,7 @@ E("multicast_factory", "multicast", "op", MC_SRC, lambda r: {"s": ch(r, SUBJECTS
 E("multicast_factory_mapper", "multicast", "op", MC_SRC, lambda r: {"s": ch(r, SUBJECTS)},
   lambda env, P: ops.multicast(subject_factory=SUBJECTS[P["s"]], mapper=_mapper_twice), c04=False, c44=True)
 E("publish_ref_count", "ref_count", "op", MC_SRC, none, lambda env, P: rx.compose(ops.publish(), ops.ref_count()), c04=False, c44=True)
-E("replay_ref_count", "replay", "op", MC_SRC, lambda r: {"n": r.choice([None, 1, 2])},
+E("replay_ref_count", "replay_ref_count", "op", MC_SRC, lambda r: {"n": r.choice([None, 1, 2])},
   lambda env, P: rx.compose(ops.replay(buffer_size=P["n"], scheduler=env.ts), ops.ref_count()), c04=False, c44=True)
 
 
